@@ -139,13 +139,13 @@ func (h *history) fenceAll(kind string, origin *mconn, changes []change, sameWri
 	expectedConns := 0
 	for _, oi := range order {
 		c := lv[oi]
-		m, err := c.c.Do("GET", fenceTarget, "", nil)
+		m, err := c.c.Do("GET", h.f.fence, "", nil)
 		r.Count("fences", 1)
 		if err != nil {
 			h.connFailed(c, "fence", err)
 			return
 		}
-		if m.Status != 200 {
+		if m.Status/100 != 2 {
 			h.abort(fmt.Sprintf("fence on connection c%d answered %d", c.Slot, m.Status))
 			return
 		}
